@@ -43,8 +43,23 @@ def action_name(cat, i):
     return "a_" + rail_name(cat, i)
 
 
+def refusal_source(case):
+    """the predefined message of `bot refuse to respond`: the library's, or the case's template (`po.tpl_source`)"""
+    return None if case.get("refusal_parts") is None else po.tpl_source(case["refusal_parts"])
+
+
+def refusal_said(case, text_seen, user_message):
+    """documented: what the refusal says when a check rail blocks `text_seen` (template variables: the runtime's own `$user_message`,
+    the rail's `$allowed` - False at that moment -, and a variable nobody sets)"""
+    if case.get("refusal_parts") is None:
+        return REFUSAL
+    return po.tpl_render(case["refusal_parts"], {"user_message": user_message, "allowed": False, "blocked": text_seen})
+
+
 def colang_source(case):
     out = []
+    if refusal_source(case) is not None:
+        out += ["define bot refuse to respond", '  "' + refusal_source(case) + '"', ""]
     var = {"input": "$user_message", "output": "$bot_message"}
     for cat in ("input", "output"):
         for i, r in enumerate(case.get(cat, [])):
@@ -79,7 +94,7 @@ def apply(rail, text):
 
 
 def _key(case):
-    return tuple((cat, tuple("c" if r["kind"] == "check" else "r" for r in case.get(cat, []))) for cat in ("input", "output"))
+    return tuple((cat, tuple("c" if r["kind"] == "check" else "r" for r in case.get(cat, []))) for cat in ("input", "output")) + (refusal_source(case),)
 
 
 def shrink_texts(case):
@@ -182,11 +197,23 @@ def request(case):
             out.append(d)
         return out
 
+    # the model's `generate_bot_message` takes the configured message (`refusal_tpl`) and what rendering makes of it in this run
+    # (`refusal`: the documented value - the model quantifies over ALL rendering results, the run supplies the one it needs)
+    _, said = documented(case)
     return {"m": "C16.interp", "input": rails("input"), "output": rails("output"), "opts": case.get("opts"),
-            "user": case["user"], "bot": case.get("bot"), "llm_text": case["llm_text"], "refusal": REFUSAL}
+            "user": case["user"], "bot": case.get("bot"), "llm_text": case["llm_text"], "refusal": REFUSAL if said is None else said,
+            "refusal_tpl": REFUSAL if refusal_source(case) is None else refusal_source(case)}
+
+
+def capped(obs):
+    """the runtime's safety cap: a turn with more than 100 new events is cut off and the internal-error utterance appended (long
+    rail lists whose LAST rails block: the refusal tail comes on top of all the loop iterations) - outside the model, counted in the tags"""
+    return bool(obs.get("event_cap_hit")) or (len(obs.get("events") or []) > 100 and (obs.get("response") or "").endswith(po.INTERNAL_ERROR))
 
 
 def compare(case, obs, m):
+    if capped(obs):
+        return None
     if "exc" in obs:
         return f"interp: generate raised {obs['exc']}"
     if m.get("res") != "ok":
@@ -222,19 +249,18 @@ def chain(rails, text):
     return seen, text
 
 
-def oracle(case, obs):
-    """the documentation table, for rails of the shipped shapes (independent of the Lean model)"""
-    if "exc" in obs:
-        return f"interp: generate raised {obs['exc']}"
+def documented(case):
+    """((calls, llm calls, reply), what the refusal says | None if nobody blocks) by the documentation table"""
     sel = (lambda c: True) if case.get("opts") is None else (lambda c: c in case["opts"])
     exp_calls, exp_llm = [], 0
     text = case["user"]
     reply = None
+    said = None
     if sel("input") and case.get("input"):
         seen, text = chain(case["input"], text)
         exp_calls += [["input", i, rail_name("input", i), t] for i, t in seen]
         if text is None:
-            reply = REFUSAL
+            reply = said = refusal_said(case, seen[-1][1], seen[-1][1])
     if reply is None:
         if not sel("dialog"):
             bm = text if not sel("output") else case.get("bot")
@@ -248,7 +274,23 @@ def oracle(case, obs):
         else:
             seen, t2 = chain(case["output"], bm)
             exp_calls += [["output", i, rail_name("output", i), t] for i, t in seen]
-            reply = REFUSAL if t2 is None else t2
+            if t2 is None:
+                said = refusal_said(case, seen[-1][1], text)
+            reply = said if t2 is None else t2
+    return (exp_calls, exp_llm, reply), said
+
+
+def oracle(case, obs):
+    """the documentation table, for rails of the shipped shapes (independent of the Lean model)"""
+    if capped(obs):
+        # the cap excuses LONG documented runs only (a rail takes about eleven events)
+        n_doc = len(case.get("input", [])) + len(case.get("output", []))
+        if n_doc >= 5:
+            return None
+        return f"interp: the turn was cut off by the runtime's safety cap (more than 100 events) with {n_doc} rail(s) configured: rails invoked {obs.get('calls', [])[:8]}…"
+    if "exc" in obs:
+        return f"interp: generate raised {obs['exc']}"
+    (exp_calls, exp_llm, reply), _ = documented(case)
     if obs["calls"] != exp_calls:
         return f"interp: rails invoked {obs['calls']}, documented {exp_calls}"
     if obs["llm_calls"] != exp_llm:
@@ -283,16 +325,36 @@ def gen(rng, tier):
             return po.pick_hostile(rng) + rng.choice(["", "", tail])
         return rng.choice(words) + rng.choice(["", tail, " zz" if tail == " bad" else "!"])
 
+    def g_refusal():
+        """the predefined refusal: the library's (40 %), or a template in both syntaxes over the runtime's own variables"""
+        if rng.random() < 0.4:
+            return None
+        var = lambda: ["var", rng.choice(["user_message", "user_message", "allowed", "nothing_set"]), rng.choice(["jinja", "dollar", "tight"])]
+        head = ["lit", rng.choice(["I can't respond to that (", "Refused: ", "No. "])]
+        tail = ["lit", rng.choice([")", ").", "", "!", ". Sorry"])]
+        parts = [head, var(), tail] if rng.random() < 0.7 else [head, var(), ["lit", rng.choice([" / ", ", "])], var(), tail]
+        return [p_ for p_ in parts if p_ != ["lit", ""]]
+
     n = 10 if tier == "quick" else 60
     for _ in range(n):
         shape_in = [g_rail() for _ in range(rng.choice([0, 1, 2, 2, 3, 4]))]
         shape_out = [g_rail() for _ in range(rng.choice([0, 1, 1, 2, 3]))]
+        refusal_parts = g_refusal()
         for o in subsets:
             dialog_off = o is not None and "dialog" not in o
             case = {"kind": "interp", "input": shape_in, "output": shape_out, "opts": o,
                     "user": g_txt(" bad"),
                     "bot": g_txt(" evil") if dialog_off else None,
                     "llm_text": rng.choice(["LLM says", "evil plan", "ok!"])}
+            if refusal_parts is not None:
+                case["refusal_parts"] = refusal_parts
+            if rng.random() < 0.4:
+                # a turn that a check rail ends (the refusal - predefined, possibly a template - is what the reply must be)
+                opts_in = [("user", r) for r in shape_in if r["kind"] == "check"] if (o is None or "input" in o) else []
+                opts_out = [("bot", r) for r in shape_out if r["kind"] == "check"] if (case["bot"] is not None and "output" in o) else []
+                if opts_in or opts_out:
+                    k, r = rng.choice(opts_in + opts_out)
+                    case[k] = case[k] + " " + rng.choice(r["needles"])
             cases.append(case)
     return cases
 
@@ -302,12 +364,20 @@ def tags(case, obs):
          f"interp-rails:{len(case.get('input', []))}in/{len(case.get('output', []))}out",
          f"interp-events:{len(obs.get('events') or []) // 20 * 20}+"]
     t += ["interp-user-" + x for x in po.text_classes(case["user"])] + ["interp-bot-" + x for x in po.text_classes(case.get("bot"))]
-    if obs.get("response") == REFUSAL:
+    if capped(obs):
+        t.append("interp-event-cap-hit")
+    _, said = documented(case)
+    if said is not None and obs.get("response") == said:
         t.append("interp-refused")
+        if case.get("refusal_parts") is not None:
+            t.append("interp-refused-with-template")
+    t.append("interp-refusal:" + ("library" if case.get("refusal_parts") is None else "template"))
     return t
 
 
 def shrink(case):
+    if case.get("refusal_parts") is not None:
+        yield {k: v for k, v in case.items() if k != "refusal_parts"}
     for cat in ("input", "output"):
         for i in range(len(case.get(cat, []))):
             c = dict(case)
